@@ -83,6 +83,7 @@ class Ring:
             return None
         r = Ring(lib, state, keep)
         r.ret = ret
+        r.need = zm_need(lib, kind, r.n)
         return r
 
     @staticmethod
@@ -100,6 +101,7 @@ class Ring:
             return None
         r = Ring(lib, state, keep)
         r.ret = ret
+        r.need = gf2_need(lib, r.n)
         return r
 
     # raw views
@@ -109,8 +111,20 @@ class Ring:
     def mod_int(self, n1=None):
         return self.lib.rdw(self.q.mod, n1 or self.n)
 
-    def stack(self):
-        return self.lib.alloc(self.deep)
+    def stack(self, exact=False):
+        """Stack for the ring operations. qr.h: the depth is r->deep. On the examined tree several
+        constructors under-report it (the 2n-word product / n-word quotient buffers of zmMul*, zmDivMont2,
+        gf2Mul* are not counted), which the canary cases of unit_zm_edge / unit_gf2 demonstrate with the
+        exact r->deep. The value cases use max(r->deep, depth recomputed from the public _deep functions
+        of the callees), which is again exactly r->deep as soon as r->deep is sufficient."""
+        need = 0 if exact else self.need
+        if need > self.deep:
+            Ring.padded += 1
+        return self.lib.alloc(max(self.deep, need))
+
+    padded = 0
+    need = 0
+
 
     # operations (pointers in, nothing out)
     def from_(self, b, a, st):
@@ -139,3 +153,1001 @@ class Ring:
 
     def div(self, b, d, a, st):
         self._div(b, d, a, self.p, st)
+
+
+def zm_need(lib, kind, n):
+    """stack depth the zm ring functions really use, from zm.c's layout and the public zz*_deep()"""
+    W = lib.W
+    mul, sqr = lib.zzMul_deep(n, n), lib.zzSqr_deep(n)
+
+    def ms(red):
+        return 2 * n * W + max(mul, sqr, red)
+    plain = max(ms(lib.zzRed_deep(n)), lib.zzInvMod_deep(n), lib.zzDivMod_deep(n))
+    crand = max(ms(lib.zzRedCrand_deep(n)), lib.zzInvMod_deep(n), lib.zzDivMod_deep(n))
+    barr = max(ms(lib.zzRedBarr_deep(n)), lib.zzInvMod_deep(n), lib.zzDivMod_deep(n))
+    mm = ms(lib.zzRedMont_deep(n))
+    ai = lib.zzAlmostInvMod_deep(n)
+    mont = max(2 * n * W + lib.zzMod_deep(2 * n, n), mm, ai, n * W + max(ai, mm))
+    montR = max(mm, ai, n * W + max(ai, mm))
+    d = {"plain": plain, "crand": crand, "barr": barr, "mont": mont, "montR": montR}
+    return d.get(kind, max(plain, crand, barr, mont))
+
+
+def gf2_need(lib, n):
+    W = lib.W
+    return max(2 * n * W + lib.ppMul_deep(n, n), 2 * n * W + lib.ppSqr_deep(n),
+               (n + 1) * W + lib.ppInvMod_deep(n + 1), (n + 1) * W + lib.ppDivMod_deep(n + 1))
+
+
+# ----------------------------------------------------------------------------------------------
+# small helpers
+# ----------------------------------------------------------------------------------------------
+
+_REPORTED = {}
+
+
+def viol(ctx, key, what, detail, limit=3):
+    """emit a violation, at most `limit` witnesses per key and worker (the runner counts occurrences)"""
+    n = _REPORTED.get(key, 0)
+    _REPORTED[key] = n + 1
+    if n < limit:
+        ctx.violation(key, what, detail)
+
+
+def hx(v):
+    return hex(v) if isinstance(v, int) else v
+
+
+def bump(d, k):
+    d[k] = d.get(k, 0) + 1
+
+
+_SMALL_PRIMES = [2, 3, 5, 7, 11, 13, 17, 19, 23, 29, 31, 37, 41, 43, 47, 53, 59, 61, 67, 71, 73, 79, 83, 89, 97,
+                 101, 103, 107, 109, 113, 127, 131, 137, 139, 149, 151, 157, 163, 167, 173, 179, 181, 191, 193, 197, 199]
+
+
+def is_prime(n):
+    """trial division + Miller-Rabin with 30 fixed prime bases (deterministic far beyond 2^64; for larger
+    numbers the error bound 4^-30 is irrelevant for operands that are not adversarial to these bases)"""
+    if n < 2:
+        return False
+    for p in _SMALL_PRIMES:
+        if n % p == 0:
+            return n == p
+    d, s = n - 1, 0
+    while d % 2 == 0:
+        d //= 2
+        s += 1
+    for a in _SMALL_PRIMES[:30]:
+        x = pow(a, d, n)
+        if x in (1, n - 1):
+            continue
+        for _ in range(s - 1):
+            x = x * x % n
+            if x == n - 1:
+                break
+        else:
+            return False
+    return True
+
+
+def next_prime(n):
+    n |= 1
+    while not is_prime(n):
+        n += 2
+    return n
+
+
+def selftest_primes():
+    if [p for p in range(60) if is_prime(p)] != _SMALL_PRIMES[:17]:
+        raise Harness("is_prime model broken (small)")
+    for c in (561, 1105, 1729, 41041, 825265, 321197185, 5394826801, 232250619601, (2 ** 61 - 1) * (2 ** 31 - 1), (2 ** 89 - 1) ** 2):
+        if is_prime(c):
+            raise Harness("is_prime model accepts composite %d" % c)
+    for p in (2 ** 31 - 1, 2 ** 61 - 1, 2 ** 89 - 1, 2 ** 127 - 1, 2 ** 255 - 19, 2 ** 521 - 1, 2 ** 64 - 59, 2 ** 128 - 159):
+        if not is_prime(p):
+            raise Harness("is_prime model rejects prime %d" % p)
+
+
+# ----------------------------------------------------------------------------------------------
+# oracle algebras: external integers <-> internal ring elements
+# ----------------------------------------------------------------------------------------------
+
+class ZAlg:
+    """Z/(M) whose elements are stored as x*R mod M (R = 1: ordinary ring; zm.h: Montgomery ring R = B^n,
+    'pure' Montgomery ring R = 2^l). Everything below is the text of zm.h in Python integers."""
+
+    def __init__(self, M, R, plain_io=False):
+        self.M, self.R, self.plain_io = M, R % M, plain_io
+        self.Ri = pow(self.R, -1, M) if math.gcd(self.R, M) == 1 and M > 1 else None
+
+    def valid(self, e):
+        return 0 <= e < self.M
+
+    def enc(self, x):
+        return x * self.R % self.M
+
+    def dec(self, e):
+        return e * self.Ri % self.M
+
+    def add(self, x, y):
+        return (x + y) % self.M
+
+    def sub(self, x, y):
+        return (x - y) % self.M
+
+    def neg(self, x):
+        return (-x) % self.M
+
+    def mul(self, x, y):
+        return x * y % self.M
+
+    def inv(self, x):
+        return pow(x, -1, self.M) if math.gcd(x, self.M) == 1 else None
+
+    def pow(self, x, e):
+        return pow(x, e, self.M)
+
+    def code(self, x):
+        return self.enc(x) if self.plain_io else x
+
+
+def sparse_mod(a, m, taps):
+    """a mod (x^m + sum x^t + 1), by the defining congruence x^m = sum x^t + 1"""
+    mask = (1 << m) - 1
+    while a >> m:
+        h = a >> m
+        a &= mask
+        a ^= h
+        for t in taps:
+            a ^= h << t
+    return a
+
+
+def gsqr(a):
+    """square in GF(2)[x]: a zero bit between any two bits (binary digits read as base-4 digits)"""
+    return int(format(a, "b"), 4)
+
+
+class FAlg:
+    """GF(2)[x]/(f), f = x^m + x^k (+ x^l + x^l1) + 1; elements are stored as they are"""
+
+    def __init__(self, p4):
+        self.m = p4[0]
+        self.taps = [t for t in p4[1:] if t]
+        self.M = (1 << self.m) | 1
+        for t in self.taps:
+            self.M |= 1 << t
+        self.R = 1
+
+    def valid(self, e):
+        return 0 <= e < (1 << self.m)
+
+    def enc(self, x):
+        return x
+
+    def dec(self, e):
+        return e
+
+    def add(self, x, y):
+        return x ^ y
+
+    sub = add
+
+    def neg(self, x):
+        return x
+
+    def code(self, x):
+        return x
+
+    def mul(self, x, y):
+        return sparse_mod(G.mul(x, y), self.m, self.taps)
+
+    def sqr(self, x):
+        return sparse_mod(gsqr(x), self.m, self.taps)
+
+    def inv(self, x):
+        if x == 0:
+            return None
+        d, u, _ = G.exgcd(x, self.M)
+        return G.mod(u, self.M) if d == 1 else None
+
+    def pow(self, x, e):
+        r = 1
+        while e:
+            if e & 1:
+                r = self.mul(r, x)
+            x = self.sqr(x)
+            e >>= 1
+        return r
+
+    def trace(self, x):
+        t, s = x, x
+        for _ in range(self.m - 1):
+            t = self.sqr(t)
+            s ^= t
+        return s
+
+    def selftest(self, rng_vals):
+        for a, b in rng_vals:
+            if self.mul(a, b) != G.mulmod(a, b, self.M) or self.sqr(a) != G.mulmod(a, a, self.M):
+                raise Harness("sparse reduction model disagrees with gf2poly.mulmod")
+
+
+# ----------------------------------------------------------------------------------------------
+# generic ring case: from/to, additive and multiplicative operations, aliasing, qrPower
+# ----------------------------------------------------------------------------------------------
+
+def ring_case(ctx, ring, alg, kind, x, y, e, epad, do_inv=True, direct=False, extra_rej=()):
+    """Runs every operation of the ring on the external operands x, y (elements are obtained with the
+    ring's own `from`), exponent e. Returns the list of observed results (external form) for the digest.
+    direct=True additionally feeds x, y as *internal* elements (Montgomery-type rings)."""
+    lib = ctx.lib
+    W, n, no = lib.W, ring.n, ring.no
+    nW = n * W
+    st = ring.stack()
+    out = []
+
+    def octs(v):
+        """code of the external value v (zm.h / gf2.h: the number / polynomial itself, little-endian; in a
+        'pure' Montgomery ring of zmMontCreate the element as it is)"""
+        return alg.code(v).to_bytes(no, "little")
+
+    def bad(fn, cat, detail):
+        d = {"mod": hx(alg.M), "kind": kind, "x": hx(x), "y": hx(y), "n": n, "no": no}
+        d.update(detail)
+        viol(ctx, "%s@%s:%s" % (fn, kind, cat), "%s in ring %s: %s" % (fn, kind, cat), d)
+
+    def res(fn, p, exp_ext, variant=None, base_ok=True):
+        """compare the n-word result at p with the internal image of exp_ext"""
+        got = lib.rdw(p, n)
+        exp = alg.enc(exp_ext)
+        ok = got == exp
+        if not ok and (variant is None or base_ok):
+            if variant is not None:
+                cat = "alias:" + variant
+            elif not alg.valid(got):
+                cat = "not-reduced"
+            else:
+                cat = "value"
+            bad(fn, cat, {"got": hx(got), "expected": hx(exp), "expected_external": hx(exp_ext),
+                          "congruent": (got - exp) % alg.M == 0 if isinstance(alg, ZAlg) else None})
+        if variant is None:
+            out.append(alg.dec(got) if alg.valid(got) else ("!", got))
+        return ok
+
+    def elem(v_int):
+        return lib.mkw(v_int, n)
+
+    # --- from: external octets -> element; in place as well (qr.h: a == b allowed)
+    ex = lib.outw(n)
+    r1 = ring.from_(ex, lib.mk(octs(x)), st)
+    if not r1:
+        bad("qrFrom", "return", {"what": "valid code rejected", "code": octs(x)})
+    res("qrFrom", ex, x)
+    ey = lib.outw(n)
+    r2 = ring.from_(ey, lib.mk(octs(y)), st)
+    if not r2:
+        bad("qrFrom", "return", {"what": "valid code rejected", "code": octs(y)})
+    res("qrFrom", ey, y)
+    buf = lib.mk(octs(x) + bytes([lib.fill]) * (max(nW, no) - no))
+    r3 = ring.from_(buf, buf, st)
+    if not r3:
+        bad("qrFrom", "alias:b=a", {"what": "valid code rejected in place"})
+    res("qrFrom", buf, x, "b=a")
+    # from here on the canonical elements (so that a broken `from` does not mask the other operations)
+    ax, ay = alg.enc(x), alg.enc(y)
+    ex, ey = elem(ax), elem(ay)
+    # --- to
+    ob = lib.alloc(no)
+    ring.to(ob, ex, st)
+    got = lib.rd(ob, no)
+    out.append(got)
+    if got != octs(x):
+        bad("qrTo", "value", {"got": got, "expected": octs(x)})
+    buf = lib.mk(ax.to_bytes(nW, "little") + bytes([lib.fill]) * (max(nW, no) - nW))
+    ring.to(buf, buf, st)
+    if lib.rd(buf, no) != octs(x):
+        bad("qrTo", "alias:b=a", {"got": lib.rd(buf, no), "expected": octs(x)})
+    # --- range rejection (codes that are not elements)
+    for code in extra_rej:
+        t = lib.outw(n)
+        r = ring.from_(t, lib.mk(code), st)
+        out.append(int(bool(r)))
+        if r:
+            bad("qrFrom", "accepts-out-of-range", {"code": code})
+    # --- additive
+    c = lib.outw(n)
+    ring.add(c, ex, ey)
+    ok = res("qrAdd", c, alg.add(x, y))
+    t = elem(ax); ring.add(t, t, ey); res("qrAdd", t, alg.add(x, y), "c=a", ok)
+    t = elem(ay); ring.add(t, ex, t); res("qrAdd", t, alg.add(x, y), "c=b", ok)
+    c = lib.outw(n); ring.add(c, ex, ex); ok2 = res("qrAdd", c, alg.add(x, x))
+    t = elem(ax); ring.add(t, t, t); res("qrAdd", t, alg.add(x, x), "c=a=b", ok2)
+    c = lib.outw(n)
+    ring.sub(c, ex, ey)
+    ok = res("qrSub", c, alg.sub(x, y))
+    t = elem(ax); ring.sub(t, t, ey); res("qrSub", t, alg.sub(x, y), "c=a", ok)
+    t = elem(ay); ring.sub(t, ex, t); res("qrSub", t, alg.sub(x, y), "c=b", ok)
+    t = elem(ax); ring.sub(t, t, t); res("qrSub", t, 0, "c=a=b", True)
+    c = lib.outw(n)
+    ring.neg(c, ex)
+    ok = res("qrNeg", c, alg.neg(x))
+    t = elem(ax); ring.neg(t, t); res("qrNeg", t, alg.neg(x), "b=a", ok)
+    # add/sub with the ring's unity (qrAddUnity / qrSubUnity)
+    c = lib.outw(n); ring.add(c, ex, ring.q.unity); res("qrAddUnity", c, alg.add(x, 1))
+    # --- multiplicative
+    c = lib.outw(n)
+    ring.mul(c, ex, ey, st)
+    ok = res("qrMul", c, alg.mul(x, y))
+    ob = lib.alloc(no); ring.to(ob, c, st) if ok else None
+    if ok and lib.rd(ob, no) != octs(alg.mul(x, y)):
+        bad("qrTo", "value", {"element": hx(lib.rdw(c, n)), "got": lib.rd(ob, no), "expected": octs(alg.mul(x, y))})
+    t = elem(ax); ring.mul(t, t, ey, st); res("qrMul", t, alg.mul(x, y), "c=a", ok)
+    t = elem(ay); ring.mul(t, ex, t, st); res("qrMul", t, alg.mul(x, y), "c=b", ok)
+    c = lib.outw(n); ring.mul(c, ex, ex, st); ok2 = res("qrMul", c, alg.mul(x, x))
+    t = elem(ax); ring.mul(t, t, t, st); res("qrMul", t, alg.mul(x, x), "c=a=b", ok2)
+    c = lib.outw(n); ring.mul(c, ex, ring.q.unity, st); res("qrMul", c, x)            # a * unity = a
+    c = lib.outw(n)
+    ring.sqr(c, ex, st)
+    ok = res("qrSqr", c, alg.mul(x, x))
+    sqr_in_ring = alg.valid(lib.rdw(c, n))
+    t = elem(ax); ring.sqr(t, t, st); res("qrSqr", t, alg.mul(x, x), "b=a", ok)
+    # --- inverse / quotient (invertible x only; non-invertible elements are driven by the edge unit)
+    xi = alg.inv(x) if do_inv else None
+    if xi is not None:
+        c = lib.outw(n)
+        ring.inv(c, ex, st)
+        ok = res("qrInv", c, xi)
+        t = elem(ax); ring.inv(t, t, st); res("qrInv", t, xi, "b=a", ok)
+        q = alg.mul(y, xi)
+        c = lib.outw(n)
+        ring.div(c, ey, ex, st)
+        ok = res("qrDiv", c, q)
+        t = elem(ay); ring.div(t, t, ex, st); res("qrDiv", t, q, "b=divident", ok)
+        t = elem(ax); ring.div(t, ey, t, st); res("qrDiv", t, q, "b=a", ok)
+        t = elem(ax); ring.div(t, t, t, st); res("qrDiv", t, alg.mul(x, xi), "b=divident=a", ok)
+    # --- qrPower (its first step is sqr(a): when the ring's own sqr has just returned a value outside the
+    # ring for this very operand, the \pre "element belongs to r" of the next internal call is false by the
+    # library's own doing; the defect is already reported above and the chained call is not made)
+    if e is not None and not sqr_in_ring:
+        bump(ctx.extra.setdefault("power_skipped_after_unreduced_sqr", {}), kind)
+    if e is not None and sqr_in_ring:
+        m = (e.bit_length() + lib.B - 1) // lib.B + epad
+        pe = lib.mkw(e, m)
+        pst = lib.alloc(lib.qrPower_deep(n, m, max(ring.deep, ring.need)))
+        c = lib.outw(n)
+        lib.qrPower(c, ex, pe, m, ring.p, pst)
+        ok = res("qrPower", c, alg.pow(x, e))
+        if ok:
+            ob = lib.alloc(no); ring.to(ob, c, st)
+            if lib.rd(ob, no) != octs(alg.pow(x, e)):
+                bad("qrTo", "value", {"element": hx(lib.rdw(c, n)), "got": lib.rd(ob, no)})
+    # --- x, y taken as internal elements (Montgomery representation: formulas of zm.h with R)
+    if direct and alg.Ri is not None and alg.R != 1:
+        M, R, Ri = alg.M, alg.R, alg.Ri
+        dx, dy = elem(x), elem(y)
+
+        def dres(fn, p, exp):
+            got = lib.rdw(p, n)
+            if got != exp:
+                bad(fn, "not-reduced" if got >= M else "value", {"internal_operands": True, "got": hx(got), "expected": hx(exp), "R": hx(R)})
+        c = lib.outw(n); ring.mul(c, dx, dy, st); dres("qrMul", c, x * y * Ri % M)
+        c = lib.outw(n); ring.sqr(c, dx, st); dres("qrSqr", c, x * x * Ri % M)
+        c = lib.outw(n); ring.add(c, dx, dy); dres("qrAdd", c, (x + y) % M)
+        c = lib.outw(n); ring.sub(c, dx, dy); dres("qrSub", c, (x - y) % M)
+        ob = lib.alloc(no); ring.to(ob, dx, st)
+        if lib.rd(ob, no) != octs(x * Ri % M):
+            bad("qrTo", "value", {"internal_operands": True, "element": hx(x), "got": lib.rd(ob, no), "expected": octs(x * Ri % M)})
+        if do_inv and math.gcd(x, M) == 1:
+            xi2 = pow(x, -1, M)
+            c = lib.outw(n); ring.inv(c, dx, st); dres("qrInv", c, xi2 * R * R % M)
+            c = lib.outw(n); ring.div(c, dy, dx, st); dres("qrDiv", c, y * xi2 * R % M)
+    return out
+
+
+# ----------------------------------------------------------------------------------------------
+# zm / gfp: moduli, operands
+# ----------------------------------------------------------------------------------------------
+
+NO_LIST = [1, 2, 3, 4, 5, 7, 8, 9, 11, 12, 13, 15, 16, 17, 20, 23, 24, 25, 28, 31, 32, 33, 36, 40, 41, 47, 48, 49,
+           56, 57, 63, 64, 65, 72]
+EXPONENTS = [0, 1, 2, 3, 4, 5, 7, 8, 15, 16, 17, 31, 255, 256, 65537, 2 ** 32 - 1, 2 ** 32, 2 ** 64 - 1, 2 ** 64,
+             2 ** 64 + 1, 2 ** 80 - 1, 2 ** 128 - 1]
+
+
+def blen(v):
+    return (v.bit_length() + 7) // 8
+
+
+def crand_ok(M, W):
+    """zmCreateCrand \\pre: mod == B^n - c, n >= 2, 0 < c < B"""
+    no = blen(M)
+    if no % W or no < 2 * W:
+        return False
+    B = 8 * W
+    c = (1 << (8 * no)) - M
+    return 0 < c < (1 << B)
+
+
+def bign_moduli(lib):
+    out = []
+    for i, l in ((1, 128), (2, 192), (3, 256)):
+        p = lib.alloc(336)
+        rc = lib.bignParamsStd(p, lib.cstr("1.2.112.0.2.0.34.101.45.3.%d" % i))
+        raw = lib.rd(p, 336)
+        lib.release()
+        if rc != 0 or int.from_bytes(raw[:8], "little") != l:
+            raise Harness("bignParamsStd failed / unexpected bign_params layout")
+        no = l // 4
+        out.append((int.from_bytes(raw[8:8 + no], "little"), "bign-p%d" % l))
+        out.append((int.from_bytes(raw[200:200 + no], "little"), "bign-q%d" % l))
+    for M, name in out:
+        if not is_prime(M):
+            raise Harness("%s is not prime under the model" % name)
+    return out
+
+
+def zm_fixed(lib):
+    L = []
+
+    def add(M, cls, f=None):
+        L.append({"M": M, "cls": cls, "f": f})
+    for M in (2, 3, 4, 5, 6, 9, 15, 16, 251, 255):
+        add(M, "tiny", {6: (2, 3), 9: (3, 3), 15: (3, 5), 255: (15, 17)}.get(M))
+    for M in (256, 257, 65535, 65536, 65537):
+        add(M, "small")
+    for k in (32, 64, 128, 192, 256, 512):
+        add(2 ** k - 1, "2^k-1")
+        add(2 ** k, "2^k")
+        add(2 ** k + 1, "2^k+1")
+    for k in (2, 3, 4, 5, 6, 8, 9):
+        for c in (1, 2, 3, 59, 2 ** 32 - 1, 2 ** 32, 2 ** 32 + 15, 2 ** 63, 2 ** 64 - 1):
+            add(2 ** (64 * k) - c, "B^n-c")
+    for k in (3, 5, 7):
+        for c in (1, 5, 2 ** 31, 2 ** 32 - 1):
+            add(2 ** (32 * k) - c, "B^n-c")
+    for M in (2 ** 61 - 1, 2 ** 89 - 1, 2 ** 127 - 1, 2 ** 255 - 19, 2 ** 521 - 1, 2 ** 64 - 59, 2 ** 128 - 159):
+        add(M, "prime")
+    bg = bign_moduli(lib)
+    for M, name in bg:
+        add(M, "bign")
+    p1, p2, p3 = 2 ** 61 - 1, 2 ** 89 - 1, 2 ** 127 - 1
+    add(p1 * (2 ** 31 - 1), "composite-zd", (p1, 2 ** 31 - 1))
+    add(p3 * p2, "composite-zd", (p3, p2))
+    add(p3 * p3, "composite-zd", (p3, p3))
+    add(bg[0][0] * bg[1][0], "composite-zd", (bg[0][0], bg[1][0]))
+    add(bg[4][0] * 3, "composite-zd", (bg[4][0], 3))
+    add(3 << 64, "even-low-word-0", (3, 1 << 64))
+    add(p3 << 65, "even-low-word-0", (p3, 1 << 65))
+    add((p2 * p1) << 1, "even", (p2 * p1, 2))
+    return L
+
+
+def rand_top(rng, no, style):
+    """random integer of exactly `no` octets; style of the top octet: set / clear / any"""
+    v = rng.getrandbits(8 * no)
+    top = v >> (8 * (no - 1))
+    low = v & ((1 << (8 * (no - 1))) - 1)
+    if style == "set":
+        top |= 0x80
+    elif style == "clear":
+        top = 1
+    elif top == 0:
+        top = 1 + (low & 0x7F)
+    return (top << (8 * (no - 1))) | low
+
+
+def zm_random(rng):
+    no = rng.choice(NO_LIST)
+    style = rng.choice(["odd", "odd", "even", "even", "composite", "square", "crand", "prime", "pow2mult"])
+    top = rng.choice(["set", "clear", "any"])
+    u = rng.getrandbits(64)
+    f = None
+    if style in ("odd", "even"):
+        M = rand_top(rng, no, top)
+        M = M | 1 if style == "odd" else M & ~1
+        if M < 2:
+            M = 2
+    elif style == "composite":
+        n1 = max(1, no // 2)
+        f1 = rand_top(rng, n1, top) | 1
+        f2 = (rand_top(rng, no - n1, "any") | 1) if no > n1 else 3
+        f1, f2 = max(f1, 3), max(f2, 3)
+        M, f = f1 * f2, (f1, f2)
+    elif style == "square":
+        f1 = max(3, rand_top(rng, (no + 1) // 2, top) | 1)
+        M, f = f1 * f1, (f1, f1)
+    elif style == "crand":
+        k = 2 + u % 8
+        c = [1 + (u >> 8) % 1000, 1 + (u >> 8) % (2 ** 32 - 1), 1 + (u >> 8) % (2 ** 56)][(u >> 4) % 3]
+        if (u >> 3) & 1:
+            M = 2 ** (64 * k) - c
+        else:
+            M = 2 ** (32 * (2 * k - 1)) - (c % (2 ** 32 - 1) + 1)
+    elif style == "prime":
+        no = min(no, 40)
+        M = next_prime(rand_top(rng, no, top))
+    else:
+        s = [1, 8, 31, 32, 33, 63, 64, 65][u % 8]
+        odd = rand_top(rng, no, top) | 1
+        M, f = odd << s, (odd, 1 << s)
+    cls = style if style != "composite" and style != "square" else "composite-zd"
+    return {"M": M, "cls": "rnd-" + cls, "f": f}
+
+
+def zm_tuples(rng, M, f, k):
+    """k operand tuples (x, y, e, epad); the first ones are the fixed boundary pairs"""
+    bl = M.bit_length()
+    cat = [0, 1, 2 % M, M - 1, max(M - 2, 0), M // 2, (M // 2 + 1) % M, 1 << (bl - 1), (1 << (bl - 1)) - 1]
+    cat = [c % M for c in cat]
+    T = []
+    for i in range(k):
+        r = rng.getrandbits(8 * blen(M) + 64) % M
+        r2 = rng.getrandbits(8 * blen(M) + 64) % M
+        s = rng.getrandbits(32)
+        er = rng.getrandbits(192)
+        e = EXPONENTS[s % len(EXPONENTS)] if (s >> 8) % 3 else er >> [184, 128, 122, 62, 0][(s >> 10) % 5]
+        epad = (s >> 16) & 1
+        if i == 0:
+            x, y = M - 1, M - 1
+        elif i == 1:
+            x, y = (0, 1) if s & 1 else (1 % M, 0)
+        elif i == 2 and f:
+            # zero divisors: x*y = 0 (mod M), x, y != 0 where possible
+            x = f[0] * (1 + r % max(1, f[1] - 1)) % M
+            y = f[1] * (1 + r2 % max(1, f[0] - 1)) % M
+        else:
+            x = cat[(s >> 20) % len(cat)] if (s >> 17) % 5 < 2 else r
+            y = cat[(s >> 24) % len(cat)] if (s >> 28) % 5 < 2 else r2
+            if (s >> 30) & 1 and (s >> 31) & 1:
+                y = x
+        T.append((x, y, e, epad))
+    return T
+
+
+def opclass(x, M):
+    if x == 0:
+        return "0"
+    if x == 1:
+        return "1"
+    if x == M - 1:
+        return "mod-1"
+    return "other"
+
+
+def zm_ring_and_alg(lib, kind, M, no, lsel, zd=False):
+    """creates the ring; returns (ring, alg, label). lsel in [0,1) selects l of zmMontCreate.
+    zd: the operands are zero divisors -> l = B*n (with l < B*n zmMulMont2 doubles the result of zzRedMont,
+    and on the examined tree an unreduced zzRedMont result (reported by the l = B*n cases) turns into an
+    ASSERT abort of zzDoubleMod; short-l rings with zero divisors are driven, in bounded number, by unit_zm_edge)"""
+    W = lib.W
+    n = (no + W - 1) // W
+    l = None
+    label = kind
+    if kind == "montR":
+        full = 8 * W * n
+        if lsel < 0.5 or zd:
+            l = full
+        else:
+            l = M.bit_length() + int((lsel - 0.5) * 2 * (full - M.bit_length()))
+            label = "montR-short" if l < full else "montR"
+    ring = Ring.zm(lib, kind, M, no, l)
+    if ring is None:
+        return None, None, label
+    if kind in ("plain", "crand", "barr"):
+        alg = ZAlg(M, 1)
+    elif kind == "mont":
+        alg = ZAlg(M, 1 << (8 * W * n))
+    elif kind == "montR":
+        alg = ZAlg(M, 1 << l, plain_io=True)
+    else:
+        # selector: the representation is whatever the ring says its unity is (checked by the caller)
+        alg = ZAlg(M, ring.unity_int())
+    return ring, alg, label
+
+
+def zm_post(ctx, ring, alg, kind, M, no, prime):
+    """postconditions of the constructors and the description predicates"""
+    lib = ctx.lib
+    W = lib.W
+
+    def bad(fn, cat, detail):
+        d = {"mod": hx(M), "no": no, "kind": kind}
+        d.update(detail)
+        viol(ctx, "%s@%s:%s" % (fn, kind, cat), "%s: %s" % (fn, cat), d)
+    fn = ZM_CREATE[kind]
+    if ring.no != no or ring.n != (no + W - 1) // W:
+        bad(fn, "post", {"r.n": ring.n, "r.no": ring.no})
+    if ring.q.hdr.keep > ring.keep_alloc:
+        bad(fn, "keep", {"hdr.keep": ring.q.hdr.keep, "declared": ring.keep_alloc})
+    if ring.mod_int() != M:
+        bad(fn, "mod", {"r.mod": hx(ring.mod_int())})
+    un = ring.unity_int()
+    if kind in ("auto", "gfp"):
+        if un not in (1, (1 << (8 * W * ring.n)) % M):
+            bad(fn, "unity", {"unity": hx(un)})
+    elif un != alg.enc(1):
+        bad(fn, "unity", {"unity": hx(un), "expected": hx(alg.enc(1))})
+    if not lib.qrIsOperable(ring.p):
+        bad("qrIsOperable", "return", {})
+    if not lib.zmIsValid(ring.p):
+        bad("zmIsValid", "return", {})
+    op = bool(lib.gfpIsOperable(ring.p))
+    if op != (M % 2 == 1 and M > 1):
+        bad("gfpIsOperable", "return", {"got": op})
+    res = [un == 1, op]
+    if prime is not None and M % 2 == 1 and M > 1:
+        st = lib.alloc(lib.gfpIsValid_deep(ring.n))
+        v = bool(lib.gfpIsValid(ring.p, st))
+        res.append(v)
+        if v != prime:
+            bad("gfpIsValid", "return", {"got": v, "prime": prime})
+    return res
+
+
+def unit_zm(ctx):
+    lib, rng, P = ctx.lib, ctx.rng, ctx.params
+    W = lib.W
+    selftest_primes()
+    chunk, nchunks, ncases, tup = P["chunk"], P["nchunks"], P["cases"], P.get("tuples", 3)
+    fixed = [m for i, m in enumerate(zm_fixed(lib)) if i % nchunks == chunk]
+    words, opcls = {}, {}
+    done = 0
+    idx = 0
+    while done < ncases:
+        spec = fixed[idx] if idx < len(fixed) else zm_random(rng)
+        idx += 1
+        M, f = spec["M"], spec["f"]
+        no = blen(M)
+        prime = is_prime(M) if no <= 72 else None
+        for kind in ("plain", "crand", "barr", "mont", "auto", "gfp", "montR"):
+            tuples = zm_tuples(rng, M, f, tup)
+            lsel = rng.random()
+            if kind in ("mont", "montR", "gfp") and M % 2 == 0:
+                continue
+            if kind == "crand" and not crand_ok(M, W):
+                continue
+            if kind == "gfp" and not prime:
+                # \expect of gfpCreate violated: only the predicates are judged
+                if M < 3 or not ctx.case(["gfp-composite", M], "gfp:composite"):
+                    continue
+                ring = Ring.zm(lib, "gfp", M, no)
+                r = [ring is not None]
+                if ring is not None:
+                    r += zm_post(ctx, ring, ZAlg(M, ring.unity_int()), "gfp", M, no, False)
+                ctx.digest(r)
+                lib.release()
+                done += 1
+                continue
+            for ti, (x, y, e, epad) in enumerate(tuples):
+                mcls = spec["cls"] + ("|odd" if M & 1 else "|even")
+                if not ctx.case([kind, M, x, y, e, epad, lsel if kind == "montR" else None], "zm:%s:%s" % (kind, mcls)):
+                    continue
+                done += 1
+                zd = bool((x and y and x * y % M == 0) or (x and x * x % M == 0) or (y and y * y % M == 0))
+                ring, alg, label = zm_ring_and_alg(lib, kind, M, no, lsel, zd)
+                if ring is None:
+                    viol(ctx, "gfpCreate@gfp:return", "gfpCreate fails for an odd prime", {"p": hx(M)})
+                    lib.release()
+                    continue
+                if alg.plain_io:
+                    # 'pure' Montgomery ring: elements are used as they are -> make x, y the *internal* values
+                    x, y = alg.dec(x), alg.dec(y)
+                bump(words, "n=%d" % ring.n)
+                bump(opcls, "x=%s,y=%s" % (opclass(x, M), opclass(y, M)))
+                if f and x and y and x * y % M == 0:
+                    bump(opcls, "zero-divisors")
+                if math.gcd(x, M) == 1:
+                    bump(opcls, "x-invertible")
+                bump(opcls, "kind=" + label)
+                out = []
+                if ti == 0:
+                    out += zm_post(ctx, ring, alg, kind, M, no, prime if kind == "gfp" or no <= 16 else None)
+                # codes that must be rejected by `from`: mod, mod + 1, all-ones (where they fit and are >= mod)
+                rej = []
+                top = (1 << (8 * no)) - 1
+                for v in (M, M + 1, top):
+                    if M <= v <= top:
+                        rej.append(v.to_bytes(no, "little"))
+                # inv/div: zzInvMod/zzDivMod need an odd modulus -> even moduli go to the edge unit
+                out += ring_case(ctx, ring, alg, label, x, y, e, epad, do_inv=bool(M & 1),
+                                 direct=(alg.R != 1 and not alg.plain_io), extra_rej=rej)
+                ctx.digest(out)
+                lib.release()
+    ctx.note("zm_words", words)
+    ctx.note("zm_operands", opcls)
+    ctx.note("stack_padded_calls", Ring.padded)
+
+
+def unit_zm_edge(ctx):
+    """Ring cases that abort on the examined tree or have an unspecified value; one library call per case so
+    that every abort is attributed to exactly one call. Deliberately bounded (each abort costs a worker restart).
+    NOT generated: inv/div of 0 in rings with ordinary/Crandall/Barrett reduction -- zzDivMod(a = 0) never
+    returns (infinite loop), which the runner could only report as inconclusive."""
+    lib = ctx.lib
+    W = lib.W
+    p1, p2, p3 = 2 ** 61 - 1, 2 ** 89 - 1, 2 ** 127 - 1
+    E40 = ((1 << 319) | (0x1234567 << 100) | 0x9ABCDE) & ~1            # even, 40 octets
+    cases = []
+    # (A) declared depth r->deep, exactly
+    for kind, M in (("plain", 2 ** 190 - 11), ("barr", 2 ** 300 + 7), ("crand", 2 ** 128 - 5), ("mont", 2 ** 190 - 11),
+                    ("montR", 2 ** 127 - 1), ("auto", 2 ** 300 + 6), ("auto", 2 ** 190 - 11), ("gfp", 2 ** 255 - 19)):
+        for op in ("mul", "sqr", "inv", "div"):
+            if M % 2 == 0 and op in ("inv", "div"):
+                continue
+            cases.append(("deep", kind, M, op, M // 3, M // 5 | 1, None, True))
+    # (B) even modulus, invertible element: the value is specified by zm.h (any natural modulus)
+    cases += [("even", "plain", 10, "inv", 3, 7, None, False), ("even", "barr", 2 ** 64, "div", 2 ** 63 + 1, 5, None, False),
+              ("even", "auto", E40, "inv", E40 // 2 + 2 if (E40 // 2) % 2 else E40 // 2 + 1, 9, None, False),
+              ("even", "plain", 2 ** 64 - 2, "div", 2 ** 63 + 3, 12345, None, False)]
+    # (C), (D) non-invertible elements: qr.h "\\expect a invertible; if not, b may be anything" -- no value verdict
+    cases += [("noninv", "mont", p3 * p2, "inv", 0, 1, None, False), ("noninv", "mont", p3 * p2, "div", 0, 5, None, False),
+              ("noninv", "montR", p3 * p2, "inv", 0, 1, None, False),
+              ("noninv", "mont", 15, "inv", 5, 1, None, False), ("noninv", "mont", p3 * p2, "div", p3, 77, None, False),
+              ("noninv", "montR", p3 * p1, "inv", 3 * p1, 1, None, False), ("noninv", "auto", p3 * p2, "inv", 2 * p2, 1, None, False),
+              ("noninv", "plain", 15, "inv", 5, 1, None, False), ("noninv", "barr", p3 * p2, "div", p3, 3, None, False),
+              ("noninv", "crand", 2 ** 128 - 3, "inv", 5 * 83, 1, None, False)]
+    # (F) zero divisors in 'pure' Montgomery rings with l < B*n
+    for M, x, y, l in ((15, 3, 10, 40), (15, 5, 6, 4), (p3 * p2, 5 * p3, 9 * p2, 217), (p3 * p3, 3 * p3, 7 * p3, 254)):
+        cases.append(("montR-short-zd", "montR", M, "mul", x, y, l, False))
+        cases.append(("montR-short-zd", "montR", M, "sqr", x if M != 15 else 0, y, l, False))
+    for cat, kind, M, op, x, y, l, exact in cases:
+        no = blen(M)
+        if kind == "crand" and not crand_ok(M, W):
+            continue
+        if not ctx.case(["edge", cat, kind, M, op, x, y, l], "zm-edge:" + cat):
+            continue
+        n = (no + W - 1) // W
+        if kind == "montR":
+            l = l or 8 * W * n
+            if l > 8 * W * n:
+                l = 8 * W * n
+            ring = Ring.zm(lib, kind, M, no, l)
+            alg = ZAlg(M, 1 << l, plain_io=True)
+        else:
+            ring = Ring.zm(lib, kind, M, no)
+            alg = ZAlg(M, ring.unity_int())
+        if ring is None:
+            raise Harness("edge: ring not created")
+        R, Ri = alg.R, alg.Ri
+        st = ring.stack(exact=exact)
+        a, b, c = lib.mkw(x, ring.n), lib.mkw(y, ring.n), lib.outw(ring.n)
+        exp = None
+        if op == "mul":
+            ring.mul(c, a, b, st)
+            exp = x * y * Ri % M
+        elif op == "sqr":
+            ring.sqr(c, a, st)
+            exp = x * x * Ri % M
+        elif op == "inv":
+            ring.inv(c, a, st)
+            if math.gcd(x, M) == 1:
+                exp = pow(x, -1, M) * R * R % M
+        else:
+            ring.div(c, b, a, st)
+            if math.gcd(x, M) == 1:
+                exp = y * pow(x, -1, M) * R % M
+        got = lib.rdw(c, ring.n)
+        if exp is not None:
+            ctx.digest(got)
+            if got != exp:
+                viol(ctx, "qr%s@%s:%s" % (op.capitalize(), kind, "not-reduced" if got >= M else "value"),
+                     "edge case %s" % cat, {"mod": hx(M), "x": hx(x), "y": hx(y), "l": l, "got": hx(got), "expected": hx(exp)})
+        lib.release()
+    ctx.note("stack_padded_calls", Ring.padded)
+
+
+# ----------------------------------------------------------------------------------------------
+# pp: binary polynomials
+# ----------------------------------------------------------------------------------------------
+
+PP_PATTERNS = ["zero", "one", "ones", "bit", "bit", "sparse", "dense", "dense", "dense", "topclear", "topbit", "degb", "degb"]
+
+
+def pp_val(rng, n, B, pat=None):
+    """n-word polynomial of a structural class. Random draws do not depend on B (values are masked)."""
+    pat = pat or rng.choice(PP_PATTERNS)
+    r = rng.getrandbits(64 * max(n, 1))
+    wi, off, k = rng.randrange(max(n, 1)), rng.choice((-1, 0, 1)), rng.randrange(2, 6)
+    if n == 0:
+        return 0
+    nb = n * B
+    mask = (1 << nb) - 1
+    r &= mask
+    if pat == "zero":
+        return 0
+    if pat == "one":
+        return 1
+    if pat == "ones":
+        return mask
+    if pat == "bit":
+        return 1 << min(max(wi * B + (B - 1 if off < 0 else 0 if off == 0 else 1), 0), nb - 1)
+    if pat == "sparse":
+        v = 0
+        for j in range(k):
+            v |= 1 << ((r >> (11 * j)) % nb)
+        return v
+    if pat == "topclear":
+        return r & ((1 << (nb - B)) - 1) if n > 1 else r >> (B // 2)
+    if pat == "topbit":
+        return r | (1 << (nb - 1))
+    if pat == "degb":
+        # degree exactly at a word boundary -1 / 0 / +1
+        d = min(max((wi + 1) * B - 1 + off, 0), nb - 1)
+        return (r & ((1 << d) - 1)) | (1 << d)
+    return r
+
+
+def pp_top(rng, n, B, pat=None):
+    """n-word polynomial with non-zero top word (n >= 1); classes of the top word: 1, top bit, random"""
+    v = pp_val(rng, n, B, pat or rng.choice(["dense", "dense", "sparse", "ones", "topbit"]))
+    c = rng.randrange(6)
+    lo = v & ((1 << ((n - 1) * B)) - 1)
+    top = v >> ((n - 1) * B)
+    if c == 0:
+        top = 1
+    elif c == 1:
+        top |= 1 << (B - 1)
+    elif c == 2:
+        top = 1 << (B - 1)
+    elif c == 3:
+        top = (top & 0xFF) | 2
+    if top == 0:
+        top = 1 + (lo & 0xFFFF)
+    return (top << ((n - 1) * B)) | lo
+
+
+def wlen(v, B):
+    return (v.bit_length() + B - 1) // B
+
+
+def pp_stack(lib, fn, *a):
+    return lib.alloc(getattr(lib, fn + "_deep")(*a))
+
+
+def pbad(ctx, fn, cat, detail):
+    viol(ctx, "%s:%s" % (fn, cat), "%s: %s" % (fn, cat), {k: hx(v) for k, v in detail.items()})
+
+
+def pp_degclass(v, B):
+    if v == 0:
+        return "0"
+    d = v.bit_length() - 1
+    return {0: "deg=kB", 1: "deg=kB+1", B - 1: "deg=kB-1"}.get(d % B, "deg=other")
+
+
+def unit_pp_arith(ctx):
+    """ppDeg, ppMulW, ppAddMulW, ppMul, ppSqr, ppDiv, ppMod on multi-word operands"""
+    lib, rng, P = ctx.lib, ctx.rng, ctx.params
+    W, B = lib.W, lib.B
+    X = 1 << B
+    nmax = P.get("nmax", 12)
+    hist = {}
+    for it in range(P["cases"]):
+        fn = ("ppDeg", "ppMulW", "ppAddMulW", "ppMul", "ppMul", "ppSqr", "ppDiv", "ppDiv", "ppMod", "ppMod")[it % 10]
+        big = rng.random() < 0.12
+        n = rng.randint(0, 20 if big else nmax)
+        m = rng.randint(0, 20 if big else nmax)
+        alias = rng.randrange(4)
+        sel = rng.random()
+        a = pp_val(rng, n, B)
+        b = pp_val(rng, m, B)
+        bt = pp_top(rng, max(m, 1), B)
+        w = pp_val(rng, 1, B)
+        q0 = pp_val(rng, max(n - m, 0) + 1, B)
+        r0 = pp_val(rng, max(m, 1), B)
+        if fn == "ppDeg":
+            if not ctx.case([fn, n, a], "ppDeg:" + pp_degclass(a, B)):
+                continue
+            got = lib.ppDeg(lib.mkw(a, n), n)
+            ctx.digest(got)
+            exp = a.bit_length() - 1 if a else SIZE_MAX
+            if got != exp:
+                pbad(ctx, fn, "value", {"a": a, "n": n, "got": got, "expected": exp})
+        elif fn in ("ppMulW", "ppAddMulW"):
+            inplace = alias == 0
+            if not ctx.case([fn, n, a, w, b if fn == "ppAddMulW" else None, inplace], "%s:n=%s%s" % (fn, "0" if n == 0 else "1" if n == 1 else ">1", ":b=a" if inplace else "")):
+                continue
+            b2 = b & ((1 << (n * B)) - 1) if m >= n else b
+            pa = lib.mkw(a, n)
+            st = pp_stack(lib, fn, n)
+            if fn == "ppMulW":
+                pb = pa if inplace else lib.outw(n)
+                carry = lib.ppMulW(pb, pa, n, w, st)
+                exp = G.mul(a, w)
+            else:
+                if inplace:
+                    pb, b2 = pa, a
+                else:
+                    pb = lib.mkw(b2, n)
+                carry = lib.ppAddMulW(pb, pa, n, w, st)
+                exp = b2 ^ G.mul(a, w)
+            got = lib.rdw(pb, n) | (carry << (n * B))
+            ctx.digest(got)
+            if got != exp:
+                pbad(ctx, fn, "alias:b=a" if inplace else "value", {"a": a, "b": b2, "w": w, "n": n, "got": got, "expected": exp})
+        elif fn == "ppMul":
+            same = alias == 0 and n == m
+            if same:
+                b = a
+            if not ctx.case([fn, n, a, m, b, same], "ppMul:%s%s" % ("n=m" if n == m else "n<m" if n < m else "n>m", ":karatsuba" if min(n, m) > 9 else "")):
+                continue
+            bump(hist, "ppMul:min(n,m)=%d" % min(n, m))
+            pa = lib.mkw(a, n)
+            pb = pa if same else lib.mkw(b, m)
+            c = lib.outw(n + m)
+            lib.ppMul(c, pa, n, pb, m, pp_stack(lib, fn, n, m))
+            got = lib.rdw(c, n + m)
+            ctx.digest(got)
+            if got != G.mul(a, b):
+                pbad(ctx, fn, "alias:a=b" if same else "value", {"a": a, "n": n, "b": b, "m": m, "got": got, "expected": G.mul(a, b)})
+        elif fn == "ppSqr":
+            if not ctx.case([fn, n, a], "ppSqr:n=%s" % ("0" if n == 0 else "1" if n == 1 else ">1")):
+                continue
+            c = lib.outw(2 * n)
+            lib.ppSqr(c, lib.mkw(a, n), n, pp_stack(lib, fn, n))
+            got = lib.rdw(c, 2 * n)
+            ctx.digest(got)
+            if got != G.mul(a, a) or got != gsqr(a):
+                pbad(ctx, fn, "value", {"a": a, "n": n, "got": got, "expected": G.mul(a, a)})
+        else:
+            # division: b with non-zero top word; b == 1 (m == 1) is driven by unit_pp_edge (aborts on the examined tree)
+            m = max(m, 1)
+            b = bt
+            if fn == "ppDiv" and n < m:
+                n = m + (n % 3)
+                a = pp_val(rng, n, B) if False else (a | (q0 << (B * 0))) & ((1 << (n * B)) - 1)
+            if sel < 0.25 and n >= m:
+                # a = q*b + r with deg r = deg b - 1 (maximal remainder), quotient of full length
+                r1 = (r0 & ((1 << (b.bit_length() - 1)) - 1)) | (1 << (b.bit_length() - 2)) if b.bit_length() > 1 else 0
+                a = (G.mul(q0, b) ^ r1) & ((1 << (n * B)) - 1)
+            elif sel < 0.32:
+                a = b & ((1 << (n * B)) - 1)
+            if b == 1 and m == 1:
+                b = 3
+            inplace = alias == 0 and n >= m
+            rn = fn == "ppDiv" and alias == 1 and n > m          # header-literal remainder size [n]r
+            cls = "%s:%s:%s" % (fn, "n<m" if n < m else "n=m" if n == m else "n>m",
+                                "top=1" if b >> ((m - 1) * B) == 1 else "topbit" if b >> (m * B - 1) else "top-other")
+            if not ctx.case([fn, n, a, m, b, inplace, rn], cls + (":r=a" if inplace else "")):
+                continue
+            bump(hist, "%s:deg(a)%sdeg(b)" % (fn, "<" if a.bit_length() < b.bit_length() else ">="))
+            q_exp, r_exp = G.divmod_(a, b)
+            pa, pb = lib.mkw(a, n), lib.mkw(b, m)
+            st = pp_stack(lib, fn, n, m)
+            if fn == "ppDiv":
+                pq = lib.outw(n - m + 1)
+                pr = pa if inplace else lib.outw(n if rn else m)
+                lib.ppDiv(pq, pr, pa, n, pb, m, st)
+                gq, gr = lib.rdw(pq, n - m + 1), lib.rdw(pr, m)
+                ctx.digest(gq, gr)
+                if gq != q_exp or gr != r_exp:
+                    pbad(ctx, fn, "alias:r=a" if inplace else "value", {"a": a, "n": n, "b": b, "m": m, "q": gq, "r": gr, "q_expected": q_exp, "r_expected": r_exp})
+                elif rn and lib.rdw(pr, n) != r_exp:
+                    # pp.h declares the remainder of ppDiv as [n]r; the function writes m words only
+                    pbad(ctx, fn, "size:r-declared-[n]-only-[m]-words-written", {"n": n, "m": m, "a": a, "b": b, "r_as_n_words": lib.rdw(pr, n), "expected": r_exp})
+            else:
+                pr = pa if inplace else lib.outw(m)
+                lib.ppMod(pr, pa, n, pb, m, st)
+                gr = lib.rdw(pr, m)
+                ctx.digest(gr)
+                if gr != r_exp:
+                    pbad(ctx, fn, "alias:r=a" if inplace else "value", {"a": a, "n": n, "b": b, "m": m, "r": gr, "r_expected": r_exp})
+        lib.release()
+    ctx.note("pp_arith", hist)
+
+
+def jobs(tier, scale=1.0):
+    q = tier == "quick"
+    J = []
+
+    def sc(v):
+        return max(1, int(v * scale))
+    nz = 6 if q else 16
+    for k in range(nz):
+        J.append({"unit": "c05_pp:unit_zm", "params": {"chunk": k, "nchunks": nz, "cases": sc(1500 if q else 12000), "tuples": 3 if q else 5}})
+    J.append({"unit": "c05_pp:unit_zm_edge", "params": {}})
+    for k in range(2 if q else 4):
+        J.append({"unit": "c05_pp:unit_pp_arith", "params": {"chunk": k, "cases": sc(6000 if q else 60000)}})
+    return J
